@@ -44,6 +44,13 @@ def verify_theory(T, repo, timeout_s=60, only=None, canaries=True):
       canary_obls.append((c, [o for o in obls if o.kind == 'canary']))
   allo = lemma_obls + [o for f in per_fn for o in f['obligations']]
   cano = [o for _, os_ in canary_obls for o in os_]
+  # vacuity guard for the theory itself: the spec axioms (+ proved lemmas) must not be contradictory
+  ax = Obligation('%s/spec/axioms-consistent' % T.pid, 'canary', list(T.axioms), z3.BoolVal(False),
+                  detail='`false` must not follow from the spec axioms')
+  ax.owner = 'spec'
+  smt.discharge([ax], timeout_s=5, first_ms=1000, phase2=False)
+  T.axioms_contradictory = (ax.status == 'proved')
+  T.axioms_check = ax
   wall = smt.discharge(allo, timeout_s=timeout_s)
   # canaries: only `proved` (= the exit is unreachable/vacuous) is a failure, so a
   # short in-process budget suffices; sat/unknown both mean "not refuted".
